@@ -725,7 +725,10 @@ fn check_result(w: &mut World, op: &'static str, res: &Res, was_live: bool, io_e
         }
         Some(Expect::Invalid) => {
             // (a keep-alive timeout that is due before the rest of the bytes is read wins)
-            let ping_timeout = *res == Res::Disconnected && w.conns[cur].pingreq_outstanding.is_some_and(|t0| clock::now() >= t0 + 5 * US_PER_S);
+            // (... counted from completion, or - open finding - from the start of a slow write)
+            let ping_timeout = *res == Res::Disconnected
+                && w.conns[cur].pingreq_outstanding.is_some()
+                && (w.conns[cur].pingreq_outstanding.is_some_and(|t0| clock::now() >= t0 + 5 * US_PER_S) || w.conns[cur].pingreq_first_offer.is_some_and(|f| clock::now() >= f + 5 * US_PER_S));
             if *res != Res::InvalidPacket && !io_err_now && !ping_timeout {
                 w.violate(
                     "C08",
